@@ -648,8 +648,10 @@ def rule_unescape(ck):
     rets = [r for r in own_nodes(ru.node) if isinstance(r, ast.Return)]
     pat_name = None
     for r in rets:
-        c = r.value
-        ok = isinstance(c, ast.Call) and isinstance(c.func, ast.Attribute) and c.func.attr == "sub" and len(c.args) == 2 and q.dotted(c.args[0]) == rr.name and q.dotted(c.args[1]) == ru.params()[0]
+        c = alias_expand(ru.node, r.value)
+        if not (isinstance(c, ast.Call) and isinstance(c.func, ast.Attribute) and c.func.attr == "sub"):
+            raise AnalysisError("re_unescape: returned value is not a regular-expression substitution: %s" % q.unparse(r.value))
+        ok = len(c.args) == 2 and q.dotted(c.args[0]) == rr.name and q.dotted(c.args[1]) == ru.params()[0]
         ck.ob(rid, ru, r, ok, "re_unescape substitutes every backslash escape of its argument")
         if ok:
             pat_name = q.dotted(c.func.value)
@@ -884,7 +886,9 @@ def rule_reverse_lookup(ck):
 
 
 def run(ck):
-    from ..x_valuewalk import guard_obligations
+    from ..x_valuewalk import guard_obligations, plain_assignments
+
+    ck.repo = plain_assignments(ck.repo, ["tornado/routing.py", "tornado/util.py"])
 
     guard_obligations(ck, ['_find_groups', '_unquote_or_none', '_re_unescape_replacement', '_load_ui_modules', '_load_ui_methods', '_execute', '_has_stream_request_body', '_parse_body'])
     ck.rule("C31.first-match", "RuleRouter.find_handler tries self.rules in insertion order and returns inside the loop at the first non-None delegate of a matching rule, else None; add_rules appends in order; Application keeps the catch-all rule last")
